@@ -24,7 +24,7 @@ type LockEvent struct {
 	Task     int
 	TaskName string
 	Site     string
-	Kind     string // "request", "acquire", "unlock"
+	Kind     string // "request" (Lock called), "queued" (joined the wait queue), "acquire", "unlock"
 }
 
 // OnLock, when set, receives every lock event of the run.
@@ -64,6 +64,7 @@ func (m *Mutex) Lock() {
 	m.waiters = append(m.waiters, t)
 	s.logLocked("lockwait T%d", t.ID)
 	s.mu.Unlock()
+	s.lockEvent(m, t, "queued")
 	s.blockOn(t, m, "lockwait")
 	// Ownership was handed over by Unlock.
 	s.lockEvent(m, t, "acquire")
@@ -131,6 +132,10 @@ func (m *Mutex) Unlock() {
 			ev.Task, ev.TaskName, ev.Site = ct.ID, ct.Name, ct.site
 		}
 		f(ev)
+	}
+	// Leaving a critical section is a point at which a real scheduler may switch goroutines.
+	if ct != nil && ct.state == tsRunning {
+		s.park(ct, "unlocked")
 	}
 }
 
